@@ -435,9 +435,32 @@ def rule_abort_sequence(prog, res, rule="R-ABORT-SEQ"):
     # be visible when the source returns from the frame call it releases
     trig = [(b.id, i) for b, i, s in f.all_stmts() if b.id in body and reqs[2][1](s)]
     inst = "acquire_abort: stop request is stored before the one-shot trigger"
+
+    def ordered(g, starts, only=None, depth=0):
+        """every trigger reachable in g (directly or inside a helper) is
+        preceded, on every path from starts, by the stop-request store"""
+        store = paths.through_callees(prog, g, reqs[0][1])
+        for b, i, s in g.all_stmts():
+            if only is not None and b.id not in only:
+                continue
+            direct = bool(calls(s, "camera_execute_trigger"))
+            via = None
+            if not direct:
+                for c in ir.calls_in(s):
+                    h = prog.resolve(c["fn"], g) if c.get("fn") else None
+                    if h is not None and h is not g and paths.stmt_reaches(prog, g, s, {"camera_execute_trigger"}):
+                        via = h
+            if not direct and via is None:
+                continue
+            before = all(paths.all_paths_pass(g, st, {(b.id, i)}, store)[0] for st in starts)
+            if before:
+                continue
+            if via is not None and depth < 3 and ordered(via, ["entry"], None, depth + 1):
+                continue
+            return False
+        return True
     if trig:
-        ok = all(paths.all_paths_pass(f, (t, -1), set(trig), paths.through_callees(prog, f, reqs[0][1]))[0]
-                 for t in valid_starts)
+        ok = ordered(f, [(t, -1) for t in valid_starts], body)
         if ok:
             res.oblige(rule, inst, True, "source.is_stopping = 1 on every path from the valid-stream edge to the trigger", f.loc())
         else:
